@@ -22,6 +22,22 @@ STORAGE_ASSUME = [
     "operation sequences stay within both backends' documented limits (cache capacity, validation lengths); snapshots are taken of existing groups; a nostr group id is not moved between groups",
 ]
 
+PROTO_HARNESS = [
+    {"bin": "proto_diff", "model": True, "stateful": True, "name": "proto_diff-mem",
+     "quick": ["--backend", "mem", "--hist", "40", "--steps", "45"], "thorough": ["--backend", "mem", "--hist", "2500", "--steps", "60"]},
+    {"bin": "proto_diff", "model": True, "stateful": True, "name": "proto_diff-sqlite",
+     "quick": ["--backend", "sqlite", "--hist", "10", "--steps", "40"], "thorough": ["--backend", "sqlite", "--hist", "400", "--steps", "60"]},
+]
+PROTO_TRUST = [
+    "modelled, not verified: OpenMLS 0.8.1 as a symbolic oracle (a group state is named by the commit that produced it; the outer NIP-44 layer opens iff the receiver holds the exporter secret of the sender's state; WrongEpoch / own-message / consumed-ratchet-key / missing-by-reference-proposal reactions), NIP-44, the nostr crate; the engine model's fingerprints are compared with real clients on every run (both backends)",
+    "harness ground truth: event facts (author, creation state named through the epoch authenticator, epoch, wrapper timestamp set through the verif-hooks feature, id order key, authorisation class, swept proposals) are computed by the harness from how each event was built, never from the outcome being judged",
+    "event ids are random (ephemeral keys, MLS randomness): histories with equal wrapper timestamps replay up to the order of event ids",
+]
+PROTO_ASSUME = [
+    "fixed initial membership (3-4 members joined through real welcomes), actions: self-update / rename commits, application messages (incl. pre-set rumor ids), leave proposals with admin auto-commit, own-commit echo / immediate merge / clear, hostile wrapper events, commits built directly with OpenMLS by non-admins, duplicates, epoch-causal and unrestricted delivery",
+    "clear_pending_commit is only used for commits that were never delivered to anyone (its documented purpose)",
+]
+
 REGISTRY = {
     "C15": {
         "props_file": "Props/C15.v",
@@ -109,4 +125,11 @@ REGISTRY = {
             "accept_welcome is a deliberate user action (consent): accepting a stale invitation for a group one is already active in is outside the 'cannot disturb' theorems, which quantify over process_welcome and decline_welcome",
         ],
     },
+    "C01": {"props_file": "Props/C01.v", "gen": [], "harness": PROTO_HARNESS, "trusted_base": PROTO_TRUST, "assumptions": PROTO_ASSUME},
+    "C02": {"props_file": "Props/C02.v", "gen": [], "harness": PROTO_HARNESS, "trusted_base": PROTO_TRUST, "assumptions": PROTO_ASSUME},
+    "C06": {"props_file": "Props/C06.v", "gen": [], "harness": PROTO_HARNESS + [
+        {"bin": "codec_diff", "model": True, "canon": ["panic_is_err"], "quick": ["--n", "200"], "thorough": ["--n", "6000"]},
+        {"bin": "storage_diff", "model": True, "stateful": True, "name": "storage_diff-mem", "quick": ["--backend", "mem", "--seqs", "25", "--len", "50"], "thorough": ["--backend", "mem", "--seqs", "600", "--len", "80"]}], "trusted_base": PROTO_TRUST, "assumptions": PROTO_ASSUME},
+    "C07": {"props_file": "Props/C07.v", "gen": [], "harness": PROTO_HARNESS, "trusted_base": PROTO_TRUST, "assumptions": PROTO_ASSUME},
+    "C08": {"props_file": "Props/C08.v", "gen": [], "harness": PROTO_HARNESS, "trusted_base": PROTO_TRUST, "assumptions": PROTO_ASSUME},
 }
